@@ -372,7 +372,7 @@ static void* threadMain(void* arg) {
 }
 
 // ------------------------------------------------------------------------------------------------ the misuse-while-locked test (runs on thread 0)
-static const Group* g_testScript;
+static const Group* g_testScript; static bool g_teardownMisuse = false;
 static char* foreignAddress() { return arena + arenaCap - 4096; }     // never handed out; only its value is used, it is never dereferenced
 class MisuseTest : public Utest {
 public:
@@ -395,7 +395,10 @@ public:
             }
         }
     }
-    void teardown() CPPUTEST_OVERRIDE { char* p = new char[12]; delete[] p; }    // the next allocation after the failure: needs the lock again
+    void teardown() CPPUTEST_OVERRIDE {
+        char* p = new char[12]; delete[] p;    // the next allocation after the failure: needs the lock again
+        if (g_teardownMisuse) { fired("second_misuse_in_teardown"); Held h; h.p = foreignAddress(); h.form = 4; h.size = 8; release(h); char* q = new char[5]; delete[] q; }      // a second misuse of the same (already failed) test, then one more allocation
+    }
 };
 class MisuseShell : public UtestShell { public: MisuseShell() : UtestShell("Thr", "misuse", "thr_test.cpp", 5) {} Utest* createTest() CPPUTEST_OVERRIDE { return new MisuseTest; } };
 
@@ -435,6 +438,7 @@ struct Engine : public vf::Engine {
         d.p["preempt_den"] = dens[w.below(7)]; d.p["bias_lock"] = w.chance(1, 4);
         if (w.chance(1, 4)) { d.p["few_points"] = w.range(1, 4); static const int spans[] = { 200, 1000, 4000, 12000 }; d.p["few_span"] = spans[w.below(4)]; d.p["bias_lock"] = 0; }      // long uninterrupted stretches with 1-4 preemptions
         d.p["misuse"] = misuse; if (misuse) d.p["junit_out"] = w.chance(1, 2);
+        if (misuse) d.p["teardown_misuse"] = w.chance(1, 4);      // the test's teardown commits a second misuse
         d.p["save_restore"] = w.chance(1, 4);      // the overloads are saved+disabled and restored once after thread-safe mode was switched on (the documented bracket for untracked code)
         if (misuse) {
             Group T; T.tag = "test";
@@ -493,7 +497,7 @@ struct Engine : public vf::Engine {
         size_t testFailures = 0; Str testFailureText;
         if (misuse && testScript) {
             // thread 0 is the test runner: a real test whose body misuses memory while the workers allocate
-            g_testScript = testScript;
+            g_testScript = testScript; g_teardownMisuse = d.pi("teardown_misuse", 0) != 0;
             TestRegistry reg; TestRegistry* saved = TestRegistry::getCurrentRegistry(); reg.setCurrentRegistry(&reg);
             MisuseShell* shell = new (::malloc(sizeof(MisuseShell))) MisuseShell(); reg.addTest(shell);
             if (d.pi("junit_out")) {
@@ -555,13 +559,14 @@ struct Engine : public vf::Engine {
         } else {
             // exactly one failure for the misusing test, and everybody could still allocate afterwards (checked by the lock oracles above)
             // ... and the failure says which misuse it was (one of the detector's three headlines; with the junit output the text sits in the simulated file)
-            if (testFailures == 1) {
+            size_t wantFailures = d.pi("teardown_misuse", 0) ? 2 : 1;
+            if (testFailures == wantFailures) {
                 Str text = testFailureText == "(junit output)" ? Str() : testFailureText;
                 if (testFailureText == "(junit output)") for (size_t i = 0; i < simIO().files.size(); i++) text += simIO().files[i]->data;
                 bool named = text.find("Deallocating non-allocated memory") != Str::npos || text.find("Allocation/deallocation type mismatch") != Str::npos || text.find("Memory corruption") != Str::npos;
                 if (!named) r.fail("C10", "misuse_report_text", sg("what", "the failure does not say which misuse was detected"), text.substr(0, 300));
             }
-            if (testFailures != 1) r.fail("C10", "misuse_reported_once", sg("what", testFailures == 0 ? "misuse not reported as a test failure" : "more than one failure"), sfmt("%zu failures recorded for the misusing test: %s", testFailures, testFailureText.substr(0, 300).c_str()));
+            if (testFailures != wantFailures) r.fail("C10", "misuse_reported_once", sg("what", testFailures < wantFailures ? "misuse not reported as a test failure" : "more failures than misuses"), sfmt("%zu failures recorded for the misusing test: %s", testFailures, testFailureText.substr(0, 300).c_str()));
         }
 
         // ---- cleanup: release what the threads still hold, then drop the detector
